@@ -531,7 +531,12 @@ class Interp:
                 if kind == "static":
                     return payload
                 if kind == "attr":
-                    return self.class_attr(owner, name)
+                    v = self.class_attr(owner, name)
+                    if isinstance(v, Obj):
+                        g = v.cls.lookup("__get__")
+                        if g is not None and g[1] == "method":       # descriptor protocol
+                            return self.call_value(BoundMethod(self.method_closure(g[0], g[2]), v), obj, obj.cls)
+                    return v
             if name == "__class__":
                 return obj.cls
             if name == "__dict__":
@@ -1784,7 +1789,12 @@ class Interp:
     def ev_Await(self, e, fr):
         v = yield from self.ev(e.value, fr)
         fr.loc = (e.lineno, e.col_offset)
-        return (yield from self.await_value(v, e))
+        saved = getattr(fr, "delegate", None)
+        fr.delegate = v if isinstance(v, (GenObj, AbsGen)) else None      # visible to canonical keys of suspended tasks
+        try:
+            return (yield from self.await_value(v, e))
+        finally:
+            fr.delegate = saved
 
     def await_value(self, v, node=None):
         if isinstance(v, GenObj) and v.is_coro:
@@ -1798,6 +1808,7 @@ class Interp:
                 raise PyRaise(v.exc)
             return v.value
         # anything else is an abstract awaitable: the scheduler (harness) decides the outcome
+        self.nyields += 1
         tok = yield ("AWAIT", (v, getattr(node, "lineno", None)))
         return self.token_value(tok)
 
